@@ -136,47 +136,134 @@ def _calls_self(j, key):
 
 
 
+def _succs(t):
+    k = t["k"]
+    if k == "goto":
+        return [t["target"]]
+    if k == "drop" and t.get("target") is not None:
+        return [t["target"]]
+    if k == "switch":
+        return [a[1] for a in t["arms"]] + [t["otherwise"]]
+    if k == "call" and t.get("target") is not None:
+        return [t["target"]]
+    return []
+
+
+def _preds_of(blocks):
+    preds = {}
+    for i, b in enumerate(blocks):
+        for x in _succs(b["term"]):
+            preds.setdefault(x, []).append(i)
+    return preds
+
+
 def _known_ctor(blocks, bi, local, preds):
-    """Constructor with which `local` is assigned on the way into block bi's end, walking back over straight-line
-    predecessors: ("Result","Ok") / ("Option","None") / ("bool", 0|1), else None."""
-    cur = bi
-    for _ in range(6):
-        for st in reversed(blocks[cur]["stmts"]):
-            if st["k"] == "assign" and st["place"].get("l") == local and "p" not in st["place"]:
+    """Constructor with which `local` holds at the end of block bi, on EVERY way of getting there:
+    ("Result","Ok") / ("Option","None") / ("bool", 0|1), else None.  Backward search over predecessors (bounded);
+    plain moves `a = move b` are followed."""
+    found = set()
+    seen = set()
+    stack = [(bi, local, None)]
+    steps = 0
+    while stack:
+        b, l, upto = stack.pop()
+        if (b, l, upto) in seen:
+            continue
+        seen.add((b, l, upto))
+        steps += 1
+        if steps > 40:
+            return None
+        stmts = blocks[b]["stmts"]
+        hi = len(stmts) if upto is None else upto
+        hit = False
+        for i in range(hi - 1, -1, -1):
+            st = stmts[i]
+            if st["k"] == "assign" and st["place"].get("l") == l:
+                if "p" in st["place"]:
+                    return None
                 rv = st["rv"]
                 agg = rv.get("agg")
                 if agg and agg.get("adt") in ("Result", "Option") and agg.get("variant"):
-                    return (agg["adt"], agg["variant"])
+                    found.add((agg["adt"], agg["variant"]))
+                    hit = True
+                    break
                 u = rv.get("use")
                 if isinstance(u, dict) and isinstance(u.get("const"), dict) and "bool" in u["const"]:
-                    return ("bool", 1 if u["const"]["bool"] else 0)
+                    found.add(("bool", 1 if u["const"]["bool"] else 0))
+                    hit = True
+                    break
+                pl = (u.get("move") or u.get("copy")) if isinstance(u, dict) else None
+                if pl and "p" not in pl:
+                    stack.append((b, pl["l"], i))
+                    hit = True
+                    break
                 return None
-        ps = preds.get(cur, [])
-        if len(ps) != 1:
+        if hit:
+            continue
+        ps = preds.get(b, [])
+        if not ps:
             return None
-        pt = blocks[ps[0]]["term"]
-        if pt["k"] not in ("goto", "drop"):
-            return None
-        cur = ps[0]
-    return None
+        for p_ in ps:
+            pt = blocks[p_]["term"]
+            if pt["k"] == "call" and isinstance(pt.get("dest"), dict) and pt["dest"].get("l") == l:
+                return None
+            stack.append((p_, l, None))
+    return next(iter(found)) if len(found) == 1 else None
 
 
 def _split_returns(h):
-    """Helper JSON in which a bare `return` block shared by several `goto`s is duplicated into them: each way of
-    returning then ends in its own return block (so that what it returns can be told apart)."""
+    """Helper JSON in which each way of DEFINING the return value ends in its own return: the blocks between the
+    assignments to `_0` and the `return` (drop-flag tests, drops, gotos - no calls, no further assignment to `_0`) are
+    duplicated per defining block.  What each copy returns can then be told apart."""
     blocks = h["blocks"]
-    rets = [i for i, b in enumerate(blocks) if b["term"]["k"] == "return" and not any(s_["k"] == "assign" for s_ in b["stmts"])]
-    if not rets:
-        return h
+    preds = _preds_of(blocks)
+
+    def defines0(b):
+        return any(st["k"] == "assign" and st["place"].get("l") == 0 for st in b["stmts"]) or (b["term"]["k"] == "call" and isinstance(b["term"].get("dest"), dict) and b["term"]["dest"].get("l") == 0)
+
     nb = None
-    for i, b in enumerate(blocks):
-        t = b["term"]
-        if t["k"] == "goto" and t["target"] in rets and t["target"] != i:
-            if nb is None:
-                nb = [dict(x, stmts=list(x["stmts"])) for x in blocks]
-            r = blocks[t["target"]]
-            nb[i]["stmts"] = nb[i]["stmts"] + list(r["stmts"])
-            nb[i]["term"] = dict(r["term"])
+    for R, rb in enumerate(blocks):
+        if rb["term"]["k"] != "return" or defines0(rb):
+            continue
+        region, defblocks, stack, ok = set(), [], [R], True
+        while stack:
+            b = stack.pop()
+            if b in region:
+                continue
+            if b != R and defines0(blocks[b]):
+                if b not in defblocks:
+                    defblocks.append(b)
+                continue
+            if blocks[b]["term"]["k"] not in ("return", "goto", "switch", "drop") or b == 0:
+                ok = False
+                break
+            region.add(b)
+            if len(region) > 8:
+                ok = False
+                break
+            for p_ in preds.get(b, []):
+                stack.append(p_)
+        if not ok or len(defblocks) < 2:
+            continue
+        if nb is None:
+            nb = [dict(x, stmts=list(x["stmts"])) for x in blocks]
+        for D in defblocks[1:]:
+            base = len(nb)
+            order = sorted(region)
+            mp = {b: base + i for i, b in enumerate(order)}
+
+            def remap(t):
+                t = dict(t)
+                if t["k"] in ("goto", "drop", "call") and t.get("target") in mp:
+                    t["target"] = mp[t["target"]]
+                if t["k"] == "switch":
+                    t["arms"] = [[v, mp.get(tg, tg)] for v, tg in t["arms"]]
+                    t["otherwise"] = mp.get(t["otherwise"], t["otherwise"])
+                return t
+
+            for b in order:
+                nb.append(dict(blocks[b], stmts=list(blocks[b]["stmts"]), term=remap(blocks[b]["term"])))
+            nb[D] = dict(nb[D], term=remap(nb[D]["term"]))
     if nb is None:
         return h
     return dict(h, blocks=nb)
@@ -213,20 +300,7 @@ def _thread_returns(nj, ret_blocks, ret_local, dest, target):
                     kind = "try"
     if kind is None:
         return
-    preds = {}
-    for i, b in enumerate(blocks):
-        t = b["term"]
-        succ = []
-        if t["k"] == "goto":
-            succ = [t["target"]]
-        elif t["k"] == "drop" and t.get("target") is not None:
-            succ = [t["target"]]
-        elif t["k"] == "switch":
-            succ = [a[1] for a in t["arms"]] + [t["otherwise"]]
-        elif t["k"] == "call" and t.get("target") is not None:
-            succ = [t["target"]]
-        for x in succ:
-            preds.setdefault(x, []).append(i)
+    preds = _preds_of(blocks)
 
     def pick(sw, val):
         for v, tg in sw["arms"]:
